@@ -56,7 +56,7 @@ def baseline_loops():
     return _loops
 
 
-TIMEOUT_MS = {"quick": 10000, "thorough": 60000}
+TIMEOUT_MS = {"quick": 20000, "thorough": 60000}     # the long last attempt; the first attempts are 1 s and 3 s (pyvc/solve.py)
 
 
 def se_unit(name, file, qualname, cls, setup, post, loop_specs=None, inline=(), lib_factory=None, kind="L2",
